@@ -388,6 +388,18 @@ func genPointer(cur interface{}, forAdd bool, odd bool) string {
 		default:
 			return l.ptr + "/" + pick("a", "0", "-")
 		}
+	case r < 0.81 && forAdd:
+		// a long way down through things that are missing (or partly there): more reference tokens than any
+		// fixed-size buffer holds
+		n := 12 + rng.Intn(30)
+		var toks []string
+		for j := 0; j < n; j++ {
+			toks = append(toks, pick("p", "q", "0", "a", "0", "x y", "k"))
+		}
+		if chance(0.3) {
+			toks[n-1] = "-"
+		}
+		return l.ptr + "/" + strings.Join(toks, "/")
 	case r < 0.92:
 		// through something missing
 		// (the token after the missing one decides, under EnsurePathExistsOnAdd, whether an array or an
